@@ -83,8 +83,12 @@ def compute_hot_set():
             for ins in dis.get_instructions(c):
                 if ins.opname == "STORE_GLOBAL":
                     stored.add(ins.argval)
+        # every module-level object that is not evidently immutable or code
+        # (dicts, lists, sets, but also buffers, deques, arbitrary instances)
+        benign = (types.ModuleType, types.FunctionType, types.BuiltinFunctionType, type,
+                  int, float, complex, str, bytes, bool, type(None), tuple, frozenset)
         mutable = {k for k, v in vars(mod).items()
-                   if isinstance(v, (dict, list, set)) and not k.startswith("__")}
+                   if not k.startswith("__") and not isinstance(v, benign) and not callable(v)}
         per_mod[mod.__name__] = (codes, stored, mutable)
     for mname, (codes, stored, mutable) in per_mod.items():
         watch = stored | mutable
